@@ -10,37 +10,79 @@ def sh(cmd, cwd=None):
     p = subprocess.run(cmd, shell=True, cwd=cwd, stdout=subprocess.PIPE, stderr=subprocess.STDOUT, text=True)
     return p.returncode, p.stdout
 
+def run_checks(dst):
+    assert sh('git -C /repo status --porcelain')[1].strip() == '', 'repo not clean'
+    rc, out = sh('git -C /repo apply %s' % os.path.join(dst, 'patch.diff'))
+    if rc != 0: return None
+    hits = {}
+    try:
+        for p, cmd in CMDS.items():
+            rc, out = sh(cmd + ' --no-write', cwd=VERIF)
+            if rc == 1:
+                hits[p] = sorted(set(re.findall(r'violated: \[(\w+)\]', out)))
+            elif rc == 2:
+                hits.setdefault('_analysis_error', []).append(p)
+    finally:
+        sh('git -C /repo checkout -- .')
+    return hits
+
+
+def recheck():
+    """re-run the registered checks against every kept change (after the checks were strengthened)"""
+    base = os.path.join(VERIF, 'seeded')
+    for sid in sorted(os.listdir(base)):
+        dst = os.path.join(base, sid)
+        mp = os.path.join(dst, 'meta.json')
+        if not os.path.exists(mp): continue
+        meta = json.load(open(mp))
+        hits = run_checks(dst)
+        if hits is None:
+            meta['note'] = 'patch no longer applies to the current tree'; meta['caught'] = None
+        else:
+            meta['reported_by'] = dict((k, v) for k, v in hits.items() if not k.startswith('_'))
+            meta['analysis_errors'] = hits.get('_analysis_error', [])
+            meta['caught'] = bool(meta['reported_by'])
+        json.dump(meta, open(mp, 'w'), indent=1)
+        print(sid, 'CAUGHT' if meta['caught'] else ('n/a' if meta['caught'] is None else 'missed'), meta.get('reported_by'))
+    summary()
+
+
+def summary():
+    base = os.path.join(VERIF, 'seeded')
+    rows = []
+    for sid in sorted(os.listdir(base)):
+        mp = os.path.join(base, sid, 'meta.json')
+        if not os.path.exists(mp): continue
+        m = json.load(open(mp))
+        rows.append({'id': sid, 'round': m.get('round', 1), 'result': 'CAUGHT' if m['caught'] else 'missed', 'reported_by': m.get('reported_by'),
+                     'first_pass': m.get('first_pass')})
+    json.dump(rows, open(os.path.join(base, 'SUMMARY.json'), 'w'), indent=1)
+
+
 def main():
+    if sys.argv[1] == '--recheck': return recheck()
     resdir, outdir = sys.argv[1], sys.argv[2]
+    rnd = int(sys.argv[3]) if len(sys.argv) > 3 else 1
+    letter = {1: {'A': 'A', 'B': 'B'}, 2: {'A': 'C', 'B': 'D'}, 3: {'A': 'E', 'B': 'F'}}[rnd]
     rows = []
     for f in sorted(os.listdir(resdir)):
         if not f.endswith('.json'): continue
         r = json.load(open(os.path.join(resdir, f)))
-        sid = f[:-5]
+        pid, ab = f[:-5].split('_')
+        sid = '%s_%s' % (pid, letter[ab])
         if not r.get('confirmed'):
             rows.append((sid, 'dropped (not confirmed on the current tree)', '')); continue
-        pid = sid.split('_')[0]
         dst = os.path.join(VERIF, 'seeded', sid)
         os.makedirs(dst, exist_ok=True)
         for name in ('patch.diff', 'demo.py', 'notes.md'):
-            src = os.path.join(outdir, pid, sid.split('_')[1], name)
+            src = os.path.join(outdir, pid, ab, name)
             if os.path.exists(src): shutil.copy(src, os.path.join(dst, name))
-        # run against /repo itself
-        assert sh('git -C /repo status --porcelain')[1].strip() == '', 'repo not clean'
-        rc, out = sh('git -C /repo apply %s' % os.path.join(dst, 'patch.diff'))
-        hits = {}
-        try:
-            for p, cmd in CMDS.items():
-                rc, out = sh(cmd + ' --no-write', cwd=VERIF)
-                if rc == 1:
-                    hits[p] = sorted(set(re.findall(r'violated: \[(\w+)\]', out)))
-                elif rc == 2:
-                    hits.setdefault('_analysis_error', []).append(p)
-        finally:
-            sh('git -C /repo checkout -- .')
+        hits = run_checks(dst) or {}
         notes = open(os.path.join(dst, 'notes.md')).read() if os.path.exists(os.path.join(dst, 'notes.md')) else ''
         meta = {
-            'id': sid, 'breaks_property': pid,
+            'id': sid, 'breaks_property': pid, 'round': rnd,
+            'first_pass': {'caught': r.get('caught'), 'checks': dict((k, [h['rule'] for h in v]) for k, v in r.get('checks', {}).items() if not k.startswith('_')),
+                           'analysis_errors': r.get('checks', {}).get('_analysis_error', [])},
             'source': 'written by an independent sub-agent given only the text of the property and a scratch git worktree',
             'needs_to_manifest': notes.strip(),
             'confirmed': {
@@ -57,7 +99,7 @@ def main():
         json.dump(meta, open(os.path.join(dst, 'meta.json'), 'w'), indent=1)
         rows.append((sid, 'CAUGHT' if meta['caught'] else 'missed', meta['reported_by']))
     for r in rows: print(*r)
-    json.dump([{'id': a, 'result': b, 'reported_by': c} for a, b, c in rows], open(os.path.join(VERIF, 'seeded', 'SUMMARY.json'), 'w'), indent=1)
+    summary()
 
 if __name__ == '__main__':
     main()
